@@ -5,6 +5,7 @@
 usage: mutant_sweep.py [--mutants /verif/work/mutants] [--only Mvm,Mlib/0012,...] [--workers N] [--shard-workers W]
                        [--tag NAME] [--check-timeout S] [--baseline [C01,C02,...]] [--all-checks] [--keep] [--rev COMMIT]
                        [--extra C06,C08]   (checks appended to the relevance list of every selected mutant)
+                       [--checks C11,C08]  (replaces the relevance list; use with --all-checks for a detection matrix)
 
 Mechanics (same as sweep_iso.py): a private copy of /verif (without work/, .git, seeded/) and a detached git
 worktree of /repo (at --rev, default HEAD; the recorded campaign: c1399e4) under /tmp/msweep_<tag>/w<k>/, the copy's three '/repo' references rewritten to the worktree;
@@ -159,7 +160,8 @@ def main():
         key = pid + '/' + var
         if ONLY and key not in ONLY and pid not in ONLY:
             continue
-        todo.append((key, patch, RELEVANT[pid[1:]] + [c for c in opt.get('extra', '').split(',') if c and c not in RELEVANT[pid[1:]]]))
+        rel = opt['checks'].split(',') if 'checks' in opt else RELEVANT[pid[1:]]
+        todo.append((key, patch, rel + [c for c in opt.get('extra', '').split(',') if c and c not in rel]))
     res = json.load(open(OUT)) if os.path.exists(OUT) else {}
     todo = [t for t in todo if t[0] not in res]
     nw = max(1, min(N, len(todo))) if 'baseline' not in opt else N
